@@ -238,12 +238,14 @@ class IncrementalPublisher:
                 )
         elif isinstance(event, GroupFailureEvent):
             group = cast("DeliveryGroup", event.group)
-            context.completed.append(
-                CompletedResult(
-                    self._ensure_id(group), [ensure_graphql_error(event.error)]
+            # A nested group can fail before it was ever announced as pending
+            # (when it shares a failed field with an already announced group);
+            # the client never heard of it, so there is nothing to complete.
+            id_ = self._ids.pop(group, None)
+            if id_ is not None:
+                context.completed.append(
+                    CompletedResult(id_, [ensure_graphql_error(event.error)])
                 )
-            )
-            del self._ids[group]
         elif isinstance(event, StreamValuesEvent):
             stream = cast("ItemStream", event.stream)
             id_ = self._ensure_id(stream)
